@@ -242,7 +242,9 @@ FBOUNDS = [(0.0, 1.0), (-1.5, 2.5), (3.0, 3.0), (-100.0, 100.0), (0.0, 1e-9), (-
 FBOUNDS += [(float("-inf"), float("inf")), (float("-inf"), 0.0), (1.5, float("inf"))]  # infinite bounds are ordinary floats
 FBOUNDS += [(0, MAXI), (-MAXI, 0), (2**53 + 1, 2**53 + 3), (0, 9), (-MAXI, MAXI)]  # int bounds (FloatRange(0, 9) is legal), also beyond 2**53
 FBOUNDS += [(-0.3, 0.1), (0.1, 0.7), (-0.7, -0.1), (0.9, 0.9), (1.7, 1.7), (1 / 3, 1 / 3), (-1e308, 1e308), (-1.7e308, 1.7e308), (5e-324, 1e-323)]
-WEIGHTS = [[0, 1, 2], [1, 0], [0, 0, 5], [5, 0, 0], [1, 1, 1], [0.5, 0, 0.25], [0, 0, 0, 1], [3], [0.00001, 0.99999], [2, 0, 0, 0, 3], [0, 1e-5]]
+WEIGHTS = [[0, 1, 2], [1, 0], [0, 0, 5], [5, 0, 0], [1, 1, 1], [0.5, 0, 0.25], [0, 0, 0, 1], [3], [0.00001, 0.99999], [2, 0, 0, 0, 3], [0, 1e-5],
+           # weights below the 1e-5 the implementation resolves (only ratios mean anything: a caller's weights may all be tiny)
+           [0, 1e-6], [0, 1e-7, 0], [0.0, 4e-6, 4e-6], [0, 0, 1e-300], [1e-9, 0]]
 
 
 def gen_genes(rng):
